@@ -31,6 +31,7 @@ tolerated occurrence is counted in excluded_known):
  F7 callables / classes exported as '<function ...>'        F8 `$X=@([]) cmd` IndexError
  F9 per-command overlay loses against the alias overlay     F10 detype() hands out its cache object
  F11 `del` after a swap of a set variable does not delete (consequence of C11-F2)
+ F12 a container read answered by an alias overlay does not drop the cached mapping
 """
 
 from __future__ import annotations
@@ -58,7 +59,8 @@ RULE = ("part A: (variable name, valid typed value) for every DEFAULT_VARS entry
         "launches; non-trivial = the history contains a launch preceded by >= 1 state change since the previous "
         "detype(); distinct = hash of the operation history")
 
-F1, F2, F3, F4, F5, F6, F7, F8, F9, F10, F11 = ("C10-F%d" % i for i in range(1, 12))
+F1, F2, F3, F4, F5, F6, F7, F8, F9, F10, F11, F12 = ("C10-F%d" % i for i in range(1, 13))
+DIRTY_CAUSE = {F1: {"held"}, F12: {"overlay-read"}}
 # the same root cause is already recorded under C11 (scoped changes): while that entry is open the shape is
 # skipped and counted here, not reported a second time (it becomes a C10 violation again once C11's entry is closed)
 XREF = {F2: "C11-F7", F11: "C11-F2"}
@@ -341,7 +343,10 @@ class History:
         self.registered = {}        # names registered by the history -> kind
         self.residue = set()        # names that went through a swap scope (cross-thread view is C11's business)
         self.held = {}              # slot -> (name, cell, object)
-        self.dirty = set()          # names mutated through a held reference since the last fresh mapping
+        # names whose global value was edited in place since the cached mapping was last dropped -> how it was
+        # reached: 'held' (a reference kept across launches, F1) / 'overlay-read' (a fresh `$X.add(..)` whose read an
+        # alias overlay answered with the very object that is also the global value, F12)
+        self.dirty = {}
         self.polluted = False
         self.last_got = None        # mapping returned by the most recent detype() of any thread
         self.seen_since_scope = set()   # threads that called detype() since a swap scope was entered / left
@@ -510,9 +515,14 @@ class History:
         if rest and stale:
             # the very mapping of the previous detype() came back.  Two recorded causes, possibly together:
             #   F1  names edited through a held reference since then (nothing invalidates the cache)
+            #   F12 names edited by `$X.add(..)` inside an alias whose overlay answered the read (returns before the
+            #       cache is dropped) with the object that is the global value too
             #   F2  the mapping was built by the other thread for its own view; views differ only on names inside
             #       a swap scope of the main thread or left in its thread-local layer by an earlier scope
             r1 = {k for k in rest if k in self.dirty}
+            # (a name edited both ways is explained by either finding: the open one is taken, F1 first)
+            by = {k: ([f for f in (F1, F12) if self.dirty[k] & DIRTY_CAUSE[f] and f in self.open_ids] or
+                      [f for f in (F1, F12) if self.dirty[k] & DIRTY_CAUSE[f]])[0] for k in r1}
             r2 = set(rest) - r1
             ok2 = True
             if r2:
@@ -523,8 +533,7 @@ class History:
                     ok2 = all(V.same_string(peer_view.get(k, V.ABSENT), got.get(k))
                               for k in r2 if k not in self.residue)
             if ok2:
-                if r1:
-                    findings.add(F1)
+                findings.update(by.values())
                 if r2:
                     findings.add(F2)
                 rest = {}
@@ -535,7 +544,7 @@ class History:
         else:
             self.last_got = None if extra else got
             self.seen_since_scope.add(me)
-            if F1 not in findings:
+            if F1 not in findings and F12 not in findings:
                 self.dirty.clear()      # the mapping was built afresh
         if not d:
             return
@@ -787,10 +796,14 @@ class History:
             self.glob[name] = {"kind": kind, "spec": list(cell["spec"])}
         self.touch()
         if op["via"] == "held":
-            self.dirty.add(name)
+            self.dirty.setdefault(name, set()).add("held")
             self.flags.add("held-mutation")
             self.labels["mutation-through-held-reference"] += 1
         else:
+            if not self._read_refreshes(name) and cell is self.glob.get(name):
+                # `$X = p` with p read inside the alias made the overlay's object the global value as well
+                self.dirty.setdefault(name, set()).add("overlay-read")
+                self.labels["fresh-mutation-of-global-value-via-overlay-read"] += 1
             self.flags.add("fresh-mutation")
             self.labels["mutation-through-fresh-read"] += 1
 
